@@ -46,6 +46,7 @@ type recHandler struct {
 	mu    sync.Mutex
 	log   []evRec
 	delay *prng.R
+	gate  sync.Mutex // held by the history while it wants events to stay queued
 }
 
 func (h *recHandler) dump(mdl model.Model) (string, string) {
@@ -60,6 +61,8 @@ func (h *recHandler) dump(mdl model.Model) (string, string) {
 }
 
 func (h *recHandler) rec(kind string, old, new model.Model) {
+	h.gate.Lock()
+	h.gate.Unlock() //nolint:staticcheck // a gate, not a critical section
 	h.mu.Lock()
 	defer h.mu.Unlock()
 	var e evRec
@@ -140,9 +143,24 @@ func c14History(r *ev.Run, p *prng.R, batch, hi int) {
 		hs = append(hs, h)
 		tc.AddEventHandler(h)
 	}
+	// The dispatcher runs per connection (client.connect starts TableCache.Run, a disconnect
+	// stops it) while the cache and its handlers live on: every other history stops and
+	// restarts Run, with events still queued when it stops.
 	stop := make(chan struct{})
-	go tc.Run(stop)
-	defer close(stop)
+	done := make(chan struct{})
+	startRun := func() {
+		stop, done = make(chan struct{}), make(chan struct{})
+		go func(s, d chan struct{}) { tc.Run(s); close(d) }(stop, done)
+	}
+	startRun()
+	gated := false
+	defer func() {
+		if gated {
+			hs[0].gate.Unlock()
+		}
+		close(stop)
+	}()
+	restarts := hi%2 == 1
 
 	st := c05state{}
 	steps := r.N(60, 200)
@@ -205,6 +223,21 @@ func c14History(r *ev.Run, p *prng.R, batch, hi int) {
 		}
 		used["shape:"+shape] = true
 		st = next
+		if restarts && gated && p.Chance(1, 3) {
+			// the changes of this step are (mostly) still queued: the first handler is held
+			used["dispatcher-restarted-with-events-queued"] = true
+			r.Count("dispatcher_restarts", 1)
+			close(stop)
+			gated = false
+			hs[0].gate.Unlock()
+			<-done
+			startRun()
+		}
+		if restarts && !gated && p.Chance(1, 8) {
+			// from here on events stay queued behind the first one
+			gated = true
+			hs[0].gate.Lock()
+		}
 		// injected notifications that must fail to apply and must not produce events for the failed row
 		if p.Chance(1, 6) {
 			us := sortedKeys(st)
@@ -227,6 +260,10 @@ func c14History(r *ev.Run, p *prng.R, batch, hi int) {
 				_ = tc.Populate2(ovsdb.TableUpdates2{"T": {p.UUID(): &ovsdb.RowUpdate2{Delete: &ovsdb.Row{}}}})
 			}
 		}
+	}
+	if gated {
+		gated = false
+		hs[0].gate.Unlock()
 	}
 	// quiescence: a sentinel row reaches every handler
 	sentinel := p.UUID()
